@@ -43,14 +43,17 @@ fn xor_case(rec: &mut Rec, ctx: &Ctx, idx: u64, rng: &mut ChaCha20Rng) {
   let m = rand_bytes(rng, ml);
   let e = crate::gen::epoch(rng);
   let maxaux = if ctx.thorough() { 2048 } else { 600 };
-  let k = rng.gen_range(2..=5usize);
+  // now and then payloads of several KiB (beyond any internal buffer or segment size)
+  let huge = idx % 25 == 7;
+  let maxaux = if huge { 9000 } else { maxaux };
+  let k = if huge { 2 } else { rng.gen_range(2..=5usize) };
   // sequences of reports by clients sharing the measurement with differing aux;
   // every 3rd case forces long tails so that unbounded reuse would be visible
   let long = idx % 3 == 0;
   let mut auxes: Vec<Vec<u8>> = Vec::new();
   let common_prefix = if rng.gen_bool(0.5) { rand_bytes_in(rng, 0..40) } else { vec![] };
   for _ in 0..k {
-    let len = if long { rng.gen_range(300..=maxaux) } else { rng.gen_range(1..=maxaux.min(400)) };
+    let len = if huge { rng.gen_range(4100..=maxaux) } else if long { rng.gen_range(300..=maxaux) } else { rng.gen_range(1..=maxaux.min(400)) };
     let mut a = common_prefix.clone();
     a.extend(rand_bytes(rng, len));
     auxes.push(a);
@@ -71,6 +74,25 @@ fn xor_case(rec: &mut Rec, ctx: &Ctx, idx: u64, rng: &mut ChaCha20Rng) {
     }
   };
   rec.case(&("xor", ml, long, reps.len()));
+  // inside ONE report: no two stretches of the ciphertext are encrypted under the same keystream
+  for r in reps.iter().filter(|r| r.ct.len() == r.payload.len() && r.ct.len() >= 400) {
+    let n = r.ct.len();
+    rec.ev("reports_scanned_for_internal_reuse");
+    for shift in [166usize, 200, 256, 332, 512, 1024, 2048, 4096, 8192] {
+      let mut o = 0usize;
+      while o + shift + 16 <= n {
+        if (0..16).all(|q| (r.ct[o + q] ^ r.ct[o + shift + q]) == (r.payload[o + q] ^ r.payload[o + shift + q])) {
+          rec.violation(
+            "keystream-reuse:within-report",
+            format!("one report: c[i]^c[i+{}] == p[i]^p[i+{}] on 16 bytes at offset {}: two stretches of the payload share their keystream", shift, shift, o),
+            json!({"case": idx, "measurement": hex(&m), "epoch": hex(&e), "threshold": t, "shift": shift, "offset": o, "payload_len": n, "ciphertext": hex_short(&r.ct)}),
+          );
+          return;
+        }
+        o += 1;
+      }
+    }
+  }
   for i in 0..reps.len() {
     // the ciphertext must have the payload's length (nothing but length is revealed, and nothing less)
     if reps[i].ct.len() != reps[i].payload.len() {
@@ -96,6 +118,29 @@ fn xor_case(rec: &mut Rec, ctx: &Ctx, idx: u64, rng: &mut ChaCha20Rng) {
       let tail_beyond = n - (d + run);
       if n - d >= BOUND + 64 {
         rec.ev("pairs_with_long_tail");
+      }
+      // beyond the first sponge block after the difference the two keystreams are unrelated:
+      // the relation must not come back on any 16-byte window further on (e.g. at a segment start)
+      {
+        let mut o = d + BOUND + 16;
+        let mut hit = None;
+        while o + 16 <= n {
+          if (0..16).all(|q| (a.ct[o + q] ^ b.ct[o + q]) == (a.payload[o + q] ^ b.payload[o + q])) {
+            hit = Some(o);
+            break;
+          }
+          o += 1;
+        }
+        rec.ev("pair_tails_scanned_for_resumed_reuse");
+        if let Some(o) = hit {
+          rec.violation(
+            "keystream-reuse:resumed",
+            format!("two reports of one measurement: c1^c2 == p1^p2 again on 16 bytes at offset {} ({} bytes after the first differing byte): the keystream restarts", o, o - d),
+            json!({"case": idx, "measurement": hex(&m), "epoch": hex(&e), "threshold": t, "first_difference": d, "offset": o, "payload_len": n,
+                   "ciphertext1": hex_short(&a.ct), "ciphertext2": hex_short(&b.ct)}),
+          );
+          return;
+        }
       }
       if run >= 8 {
         let unbounded = run > BOUND;
